@@ -46,6 +46,47 @@ def _message(case):
     return msg
 
 
+class _Spin(Exception):
+    """the client keeps decoding without asking for more input: it will never return"""
+
+
+class _JsonGuard(object):
+    """stands for the `json` module inside circus.client: counts loads() so that a call that spins over the same
+    messages for ever is cut short instead of hanging the check"""
+
+    def __init__(self, limit):
+        self.n, self.limit = 0, limit
+
+    def __getattr__(self, name):
+        return getattr(json, name)
+
+    def loads(self, *a, **kw):
+        self.n += 1
+        if self.n > self.limit:
+            raise _Spin("json.loads called %d times for %d frames" % (self.n, (self.limit - 50) // 4))
+        return json.loads(*a, **kw)
+
+
+def _guard_concurrent(real, limit):
+    """stands for `tornado.concurrent` inside circus.client: a Future whose result is fetched again and again (a call that
+    keeps waiting on a future that is already done never gives the loop a chance) is cut short"""
+    counter = [0]
+
+    class GuardFuture(real.Future):
+        def result(self, *a, **kw):
+            counter[0] += 1
+            if counter[0] > limit:
+                raise _Spin("a finished future was waited for %d times" % counter[0])
+            return super().result(*a, **kw)
+
+    class Proxy(object):
+        Future = GuardFuture
+
+        def __getattr__(self, name):
+            return getattr(real, name)
+    return Proxy()
+
+
 class _Pending(Exception):
     """scripted events used up: the real client would keep waiting"""
 
@@ -328,7 +369,11 @@ def _run_async(case):
     c._timeout = 5.0
     c.timeout = 5000.0
     saved = cl.uuid
+    saved_json = cl.json
     cl.uuid = _FakeUuid(case["call_id"])
+    cl.json = _JsonGuard(4 * len(numbered) + 50)
+    saved_conc = cl.concurrent
+    cl.concurrent = _guard_concurrent(saved_conc, 4 * (len(numbered) + len(case["batches"])) + 50)
 
     async def runner():
         return await c.call(_message(case))
@@ -336,6 +381,8 @@ def _run_async(case):
         obs = _result(lambda: _loop.run_until_complete(runner()), case["call_id"])
     finally:
         cl.uuid = saved
+        cl.json = saved_json
+        cl.concurrent = saved_conc
     obs["sent_ok"] = len(log["sent"]) == 1 and json.loads(log["sent"][0]).get("id") == case["call_id"]
     obs["frames_consumed"] = pos[0]
     return obs
@@ -408,6 +455,10 @@ def oracle(case, obs):
     o = obs["outcome"]
     if not obs.get("sent_ok"):
         fails.append({"sig": "client-request-without-id", "msg": "the request sent does not carry the call id"})
+    if str(o).startswith("EXC:_Spin"):
+        fails.append({"sig": "client-spins-without-returning", "msg": "the call neither returns its reply nor reports a timeout: %s"
+                                                                       % obs.get("message")})
+        return fails
     # arrival order as the client sees it, classified with json.loads
     seq = []
     n = 0
